@@ -114,13 +114,30 @@ func C13(p *core.Program, r *core.Report) {
 
 	// ---- L1 / L2
 	nRegions := 0
+	type pendingStore struct{ typ, msg string }
+	type regionResult struct {
+		key, pos string
+		nblk     int
+		problems []string
+		pending  []pendingStore
+	}
+	var regions []regionResult
+	type fieldAccess struct {
+		typ            string
+		write, inLog   bool
+		fn, pos, canon string
+	}
+	var fieldAccesses []fieldAccess
 	type mapAccess struct {
 		field          string
 		write, inLog   bool
 		fn, pos, canon string
 	}
 	var mapAccesses []mapAccess
-	for _, fn := range p.ModFunctions(false) {
+	// the units of analysis (exported functions with their unexported helpers expanded): a debug
+	// helper that is only called under a log flag is then judged inside the log region of its
+	// caller, however the bookkeeping is cut into helper methods or helper types
+	for _, fn := range units(p) {
 		if strings.Contains(fn.String(), "distillerLogger") {
 			continue // the predicates' own implementation
 		}
@@ -189,8 +206,9 @@ func C13(p *core.Program, r *core.Report) {
 			for blk := range region {
 				logBlocks[blk] = true
 			}
-			key := fmt.Sprintf("%s: log region of %s", core.ShortKey(fn), blockDesc(p, b))
+			key := fmt.Sprintf("%s: log region of %s", unitName(p, fn), blockDesc(p, b))
 			var problems []string
+			var pending []pendingStore
 			inRegion := func(v ssa.Value) bool {
 				in, ok := v.(ssa.Instruction)
 				return ok && in.Block() != nil && region[in.Block()]
@@ -200,7 +218,14 @@ func C13(p *core.Program, r *core.Report) {
 					switch x := in.(type) {
 					case *ssa.Store:
 						if !storeIsLocal(x.Addr, inRegion) {
-							problems = append(problems, fmt.Sprintf("store to %s at %s", core.NewCanon(p).Of(x.Addr), p.Pos(x.Pos())))
+							msg := fmt.Sprintf("store to %s at %s", core.NewCanon(p).Of(x.Addr), p.Pos(x.Pos()))
+							// a field of a record type: judged below, when it is known whether that
+							// type is written by logging code only (records kept in a debug map)
+							if tk := recordTypeOf(x.Addr); tk != "" {
+								pending = append(pending, pendingStore{tk, msg})
+							} else {
+								problems = append(problems, msg)
+							}
 						}
 					case *ssa.MapUpdate:
 						if !inRegion(x.Map) && !isDebugMap(p, x.Map) {
@@ -208,7 +233,24 @@ func C13(p *core.Program, r *core.Report) {
 						}
 					case *ssa.Return:
 						if len(x.Results) > 0 {
-							problems = append(problems, "result-bearing return inside the log region at "+p.Pos(x.Pos()))
+							// after expansion every edge into a return block has a return of its own: a return
+							// in the region is harmless when the path without logging returns the very same values
+							same := false
+							for _, other := range core.Returns(fn) {
+								if region[other.Block()] || len(other.Results) != len(x.Results) {
+									continue
+								}
+								eq := true
+								for k := range x.Results {
+									if other.Results[k] != x.Results[k] || inRegion(x.Results[k]) {
+										eq = false
+									}
+								}
+								same = same || eq
+							}
+							if !same {
+								problems = append(problems, "result-bearing return inside the log region at "+p.Pos(x.Pos()))
+							}
 						}
 					case *ssa.Go, *ssa.Defer, *ssa.Send:
 						problems = append(problems, fmt.Sprintf("%T inside the log region at %s", x, p.Pos(in.Pos())))
@@ -284,12 +326,27 @@ func C13(p *core.Program, r *core.Report) {
 					}
 				}
 			}
-			sort.Strings(problems)
-			r.Add("L2", key, blockPos(p, b), len(problems) == 0, fmt.Sprintf("%d blocks in the region", len(region)), problems...)
+			regions = append(regions, regionResult{key, blockPos(p, b), len(region), problems, pending})
 		}
 		// L2 (converse), collected here and judged below: map-typed struct fields that are only
 		// ever updated inside log regions hold entries only when logging is enabled, so whatever
 		// reads them outside a log region lets the log flag steer the normal flow
+		for _, b := range fn.Blocks {
+			for _, in := range b.Instrs {
+				switch x := in.(type) {
+				case *ssa.Store:
+					if tk := recordTypeOf(x.Addr); tk != "" {
+						fieldAccesses = append(fieldAccesses, fieldAccess{tk, true, logBlocks[b], core.ShortKey(fn), p.Pos(in.Pos()), ""})
+					}
+				case *ssa.UnOp:
+					if x.Op == token.MUL {
+						if tk := recordTypeOf(x.X); tk != "" {
+							fieldAccesses = append(fieldAccesses, fieldAccess{tk, false, logBlocks[b], core.ShortKey(fn), p.Pos(in.Pos()), core.NewCanon(p).Of(x)})
+						}
+					}
+				}
+			}
+		}
 		for _, b := range fn.Blocks {
 			for _, in := range b.Instrs {
 				var m ssa.Value
@@ -324,6 +381,35 @@ func C13(p *core.Program, r *core.Report) {
 				mapAccesses = append(mapAccesses, mapAccess{key, write, logBlocks[b], core.ShortKey(fn), p.Pos(in.Pos()), core.NewCanon(p).Of(m)})
 			}
 		}
+	}
+	// record types written by logging code only
+	debugType := map[string]bool{}
+	for _, a := range fieldAccesses {
+		if a.write {
+			if _, seen := debugType[a.typ]; !seen {
+				debugType[a.typ] = true
+			}
+			if !a.inLog {
+				debugType[a.typ] = false
+			}
+		}
+	}
+	for _, rg := range regions {
+		problems := rg.problems
+		for _, pd := range rg.pending {
+			if !debugType[pd.typ] {
+				problems = append(problems, pd.msg)
+			}
+		}
+		sort.Strings(problems)
+		r.Add("L2", rg.key, rg.pos, len(problems) == 0, fmt.Sprintf("%d blocks in the region", rg.nblk), problems...)
+	}
+	for _, a := range fieldAccesses {
+		if a.write || !debugType[a.typ] {
+			continue
+		}
+		r.Add("L2", fmt.Sprintf("%s: read of debug record %s", a.fn, shortVal(a.canon)), a.pos, a.inLog,
+			"records of this type are only written when logging is enabled: a read outside a log region makes the result depend on the log flag")
 	}
 	debugOnly := map[string]bool{}
 	for _, a := range mapAccesses {
@@ -671,4 +757,21 @@ func rootOfValue(v ssa.Value) ssa.Value {
 		}
 	}
 	return v
+}
+
+// recordTypeOf: addr is the address of a field of a named struct type of the module (reached
+// through a pointer, not a local of the function): the type's name, else "".
+func recordTypeOf(addr ssa.Value) string {
+	fa, ok := addr.(*ssa.FieldAddr)
+	if !ok {
+		return ""
+	}
+	if _, isLocal := fa.X.(*ssa.Alloc); isLocal {
+		return ""
+	}
+	n := core.NamedOf(fa.X.Type())
+	if n == nil || n.Obj().Pkg() == nil || !core.IsModPkg(n.Obj().Pkg().Path()) {
+		return ""
+	}
+	return n.String()
 }
